@@ -103,7 +103,10 @@ impl BigNumber {
     }
 
     pub fn from_u32(n: usize) -> ClResult<BigNumber> {
-        let bn = BigNum::from_u32(n as u32)?;
+        let bn = match u32::try_from(n) {
+            Ok(n) => BigNum::from_u32(n)?,
+            Err(_) => BigNum::from_dec_str(&n.to_string())?,
+        };
         Ok(BigNumber { openssl_bn: bn })
     }
 
